@@ -149,6 +149,18 @@ const BF2_PATTERNS: &[&str] = &[
 ];
 const BF2_OPTIONS: &[&str] = &["", "script", "domain=example.com"];
 
+// option cube: one option set per distinguishing feature of a rule (every request type, the two
+// redirect flavours, resource names and priorities, csp / removeparam values, match-case, negated
+// types): a badfilter must cancel a rule only if ALL of these agree. (No list that mixes positive and
+// negated types: `script,~image` and `~image` denote the same set of request types here, so whether
+// they are "the same rule" for a badfilter is not pinned.)
+const BF3_PATTERNS: &[&str] = &["||ads.net^", "ads", "@@||ads.net^"];
+const BF3_OPTIONS: &[&str] = &[
+    "", "redirect=a", "redirect-rule=a", "redirect=b", "redirect=a:5", "redirect-rule=a:5", "script,redirect=a", "script,redirect-rule=a", "csp=d1", "csp=d2", "removeparam=x",
+    "removeparam=y", "match-case", "important", "websocket", "ping", "other", "font", "media", "object", "subdocument", "~script", "~image",
+    "~script,~image", "1p", "3p", "script,3p", "image",
+];
+
 /// Alias normalisation, written from the option documentation (not from /repo).
 fn normalise(opts: &str) -> BTreeSet<String> {
     let mut out = BTreeSet::new();
@@ -251,7 +263,16 @@ fn check_badfilter_pair(y: (&str, &str), z: (&str, &str), reqs: &[Req], l: &mut 
         if s.matching.iter().any(|m| *m == ytxt) {
             y_mattered = true;
         }
-        if let Some(field) = ns::diff_verdict(&s.verdict, &got) {
+        let csp_diff = if ytxt.contains("csp=") {
+            l.compared += 1;
+            match vh::util::catch(|| vh::net::csp_set(&e.get_csp_directives(&rq.req))) {
+                Ok(c) if c == s.csp => None,
+                _ => Some("csp"),
+            }
+        } else {
+            None
+        };
+        if let Some(field) = ns::diff_verdict(&s.verdict, &got).or(csp_diff) {
             let sig = if cancels { format!("c04.badfilter.not-cancelled{}.{}", ["", ".second-copy", ".other-spelling"][vi % plain.max(1)], field) } else { format!("c04.badfilter.wrongly-cancelled-or-matching.{}", field) };
             l.mismatch(Mismatch {
                 sig,
@@ -349,6 +370,16 @@ fn check(ctx: &Ctx) -> i32 {
     ctx.par_range("badfilter pattern cube", m2 * m2, 16, |i, l| {
         check_badfilter_pair(bf2[(i / m2) as usize], bf2[(i % m2) as usize], &bf_reqs, l);
     });
+    let bf3: Vec<(&'static str, &'static str)> = BF3_PATTERNS
+        .iter()
+        .flat_map(|p| BF3_OPTIONS.iter().map(move |o| (*p, *o)))
+        .filter(|(p, o)| !(p.starts_with("@@") && (o.contains("important") || o.contains("removeparam"))))
+        .collect();
+    ctx.bound("badfilter_option_cube_spellings", bf3.len());
+    let m3 = bf3.len() as u64;
+    ctx.par_range("badfilter option cube", m3 * m3, 16, |i, l| {
+        check_badfilter_pair(bf3[(i / m3) as usize], bf3[(i % m3) as usize], &bf_reqs, l);
+    });
     // a $badfilter rule alone never matches anything
     ctx.par_range("badfilter alone", m, 4, |i, l| {
         let z = bf[i as usize];
@@ -371,7 +402,7 @@ fn check(ctx: &Ctx) -> i32 {
     });
     ctx.finish(
         "model_checking",
-        "(a,b) every base list of <= k rules of R_net' (R_net without badfilter/csp/removeparam) x every extra rule x every insertion position, two real engines each, under every tag subset, against U_net x (initiator,type): both engines' blocked bit compared with the reference precedence, and the two monotonicity implications; (c) every ordered pair of the 184 rule spellings (8 patterns x 24 option spellings incl. aliases and reorderings): engine([base, y, z$badfilter]) compared with the reference for [base] or [base, y] according to the alias-normalising oracle; non-trivial = the extra rule changed a verdict / the pair cancels or y matched something",
+        "(a,b) every base list of <= k rules of R_net' (R_net without badfilter/csp/removeparam) x every extra rule x every insertion position, two real engines each, under every tag subset, against U_net x (initiator,type): both engines' blocked bit compared with the reference precedence, and the two monotonicity implications; (c) every ordered pair of the 184 rule spellings (8 patterns x 24 option spellings incl. aliases and reorderings): engine([base, y, z$badfilter]) compared with the reference for [base] or [base, y] according to the alias-normalising oracle; the same over a 25-pattern x 3-option pattern cube and a 3-pattern x 29-option option cube (one option set per distinguishing feature of a rule; csp answers compared as well); non-trivial = the extra rule changed a verdict / the pair cancels or y matched something",
         &["tag differences between a rule and its badfilter twin are outside the domain (not generated)", "spellings that are semantically equal but textually different type lists are not generated"],
     )
 }
